@@ -1,12 +1,131 @@
-(* C15 — Clockwork batching.  Only statements; proofs are in Proofs/ClockworkP*.v. *)
-From Coq Require Import ZArith Bool List.
+(* C15 — Clockwork batching: full, same-model, loaded, on-time batches only; a request is placed at most once;
+   hopeless requests are cancelled.  Only statements; proofs are in Proofs/ClockworkP*.v.
+   Vocabulary (Proofs/ClockworkP2.v, P4.v, P5.v): Inv_m = queue invariant of a Model; Inv_st = all Models of the
+   scheduler + their strategies are those of the profile; world_wf = strategy objects of a profile are distinct objects;
+   batch_ok = what the property asks of a batch; env_ok = the environment offers no request that was already placed;
+   Err 99 = fuel of the inference loop exhausted (the implementation would not terminate). *)
+From Coq Require Import ZArith Bool List Sorting.Sorted.
 Import ListNotations.
-From Verif Require Import Model.Val Gen.Src_Clockwork Model.Clockwork Proofs.ClockworkP.
+From Verif Require Import Model.Val Gen.Src_Clockwork Model.Clockwork Proofs.ClockworkP Proofs.ClockworkP2 Proofs.ClockworkP3
+  Proofs.ClockworkP4 Proofs.ClockworkP5 Proofs.ClockworkP6 Proofs.ClockworkP7 Proofs.ClockworkP8.
 Open Scope Z_scope.
 
-(* requests that can no longer meet their deadline are cancelled rather than queued: the cancellations of an
-   invocation are exactly the offered requests with deadline < now + fastest runtime, in order *)
+(* the comparisons translated from the source are the documented ones (a `<` / `<=` edit breaks these) *)
+Theorem C15_bridge :
+  cw_enforce_deadlines = true /\
+  (forall d now f, cw_hopeless true d now f = (d <? now + f)) /\
+  (forall n hd now rt, cw_expire_cond n hd now rt = (0 <? n) && (hd <? now + rt)) /\
+  (forall bs n now rt hd, cw_strategy_ready bs n now rt hd = (bs <=? n) && (now + rt <=? hd)) /\
+  (forall hd rt now, cw_priority hd rt now = hd - rt - now) /\
+  (forall b, cw_neg_batch b = - b) /\
+  (forall a b, cw_req_lt a b = (a <? b)) /\
+  (forall n b, cw_queue_short n b = (n <? b)) /\
+  (forall a, cw_not_loaded a = negb (a =? 0)).
+Proof.
+  exact (conj bridge_enforce (conj bridge_hopeless (conj bridge_expire (conj bridge_ready (conj bridge_priority
+        (conj bridge_neg_batch (conj bridge_req_lt (conj bridge_queue_short bridge_not_loaded)))))))).
+Qed.
+Print Assumptions C15_bridge.
+
+(* ---- queue invariant: sorted by deadline, no duplicates, only tasks of the model, task map <-> queues, counters;
+   preserved by every operation of Model *)
+Theorem C15_inv_remove_task : forall t m, Inv_m m -> Inv_m (m_remove_task t m).
+Proof. exact remove_task_inv. Qed.
+Print Assumptions C15_inv_remove_task.
+Theorem C15_inv_expiry_step : forall now k m m', Inv_m m -> expire_step now k m = Some m' -> Inv_m m'.
+Proof. exact expire_step_inv. Qed.
+Print Assumptions C15_inv_expiry_step.
+Theorem C15_inv_add_task : forall t m, Inv_m m -> t_model t = m_id m -> m_queues m <> [] -> Inv_m (m_add_task t m).
+Proof. exact add_task_inv. Qed.
+Print Assumptions C15_inv_add_task.
+(* get_available_execution_strategies: invariant kept, only requests lost, afterwards every queued request meets its
+   deadline with the strategy of its queue, and every strategy returned has a full batch waiting *)
+Theorem C15_available_strategies : forall now m m' ss, Inv_m m -> avail_strats now m = Ok (m', ss) ->
+  Inv_m m' /\ shrinks m' m /\ clean now m' /\ (forall s, In s ss -> exists q, In (s, q) (m_queues m') /\ s_bs s <= zlen q).
+Proof. exact avail_strats_spec. Qed.
+Print Assumptions C15_available_strategies.
+(* get_placements: the batch is a prefix of the strategy's queue, of exactly batch_size requests, and its members are
+   gone from the task map (hence from every queue, by the invariant) *)
+Theorem C15_get_placements : forall s m b m', Inv_m m -> m_get_placements s m = Ok (b, m') ->
+  Inv_m m' /\ shrinks m' m /\
+  (exists s' q, In (s', q) (m_queues m) /\ s_id s' = s_id s /\ incl b q /\ (0 <= s_bs s -> zlen b = s_bs s)) /\
+  (forall t, In t b -> ~ In (t_id t) (keys (m_tasks m'))) /\
+  (length (m_tasks m') + length b = length (m_tasks m))%nat /\ NoDup (ids b).
+Proof. exact get_placements_spec. Qed.
+Print Assumptions C15_get_placements.
+Theorem C15_inv_start : forall wd started, world_wf wd -> NoDup started ->
+  Inv_st wd (cw_start wd started) /\ st_recs (cw_start wd started) = [].
+Proof. exact cw_start_inv. Qed.
+Print Assumptions C15_inv_start.
+
+(* ---- one invocation of schedule(), from any state satisfying the invariant, for every offered list, cluster view,
+   goal and LOAD/EVICT oracle answer *)
+Theorem C15_schedule : forall wd ls inv st st' d, world_wf wd -> Inv_st wd st -> cw_schedule wd ls inv st = Ok (st', d) ->
+  Inv_st wd st' /\
+  d_cancel d = filter (hopeless wd (i_now inv)) (i_offered inv) /\
+  Forall (batch_ok wd) (d_batches d) /\ Forall (loc_ok (inv_pools inv) (i_now inv)) (d_batches d) /\
+  NoDup (placed (d_batches d)) /\
+  (forall t, In t (placed (d_batches d)) -> (In t (st_recs st) \/ admitted wd inv t) /\ ~ In t (st_recs st')) /\
+  (forall t, In t (st_recs st') -> In t (st_recs st) \/ admitted wd inv t).
+Proof. exact cw_schedule_spec. Qed.
+Print Assumptions C15_schedule.
+(* every batch of every invocation of every run from start(): one model, size = batch size of the chosen strategy
+   (a strategy of the model's profile), worker has the model loaded and fits the strategy, now + runtime <= every
+   member's deadline *)
+Theorem C15_batch : forall wd ls started invs, world_wf wd -> NoDup started ->
+  Forall (res_all (fun d => Forall (batch_ok wd) (d_batches d))) (cw_run wd ls invs (cw_start wd started)).
+Proof. intros wd ls started invs Hw Hd. apply run_batches_ok; [assumption|]. apply cw_start_inv; assumption. Qed.
+Print Assumptions C15_batch.
+(* placed at most once over the whole run *)
+Theorem C15_once : forall wd ls invs st prev, world_wf wd -> Inv_st wd st ->
+  NoDup prev -> (forall t, In t prev -> ~ In t (st_recs st)) -> env_ok wd ls invs st prev ->
+  NoDup (prev ++ run_placed (cw_run wd ls invs st)).
+Proof. exact run_once. Qed.
+Print Assumptions C15_once.
+Theorem C15_once_ids : forall wd ls started invs, world_wf wd -> NoDup started ->
+  env_ok wd ls invs (cw_start wd started) [] -> id_functional (flat_map i_offered invs) ->
+  NoDup (map t_id (run_placed (cw_run wd ls invs (cw_start wd started)))).
+Proof. exact run_once_ids. Qed.
+Print Assumptions C15_once_ids.
+(* cancelled rather than placed *)
 Theorem C15_cancel : forall wd ls inv st st' d,
   cw_schedule wd ls inv st = Ok (st', d) -> d_cancel d = filter (hopeless wd (i_now inv)) (i_offered inv).
 Proof. exact cw_schedule_cancels. Qed.
 Print Assumptions C15_cancel.
+Theorem C15_hopeless_never_placed : forall wd ls inv st st' d, world_wf wd -> Inv_st wd st -> cw_schedule wd ls inv st = Ok (st', d) ->
+  forall t, In t (placed (d_batches d)) -> hopeless wd (i_now inv) t = false.
+Proof. exact schedule_not_hopeless. Qed.
+Print Assumptions C15_hopeless_never_placed.
+(* the inference loops terminate when batch sizes are >= 1 (measure: deque length + queued requests) ... *)
+Theorem C15_terminates : forall wd ls inv st, world_wf wd -> bs_pos wd -> Inv_st wd st -> cw_schedule wd ls inv st <> Err 99.
+Proof. exact cw_schedule_terminates. Qed.
+Print Assumptions C15_terminates.
+Theorem C15_terminates_run : forall wd ls started invs, world_wf wd -> bs_pos wd -> NoDup started ->
+  ~ In (Err 99) (cw_run wd ls invs (cw_start wd started)).
+Proof. intros wd ls started invs Hw Hp Hd. apply run_terminates; [assumption|assumption|]. apply cw_start_inv; assumption. Qed.
+Print Assumptions C15_terminates_run.
+(* ... and the hypothesis is needed: with a batch size 0 the loop never ends *)
+Theorem C15_zero_batch_diverges :
+  let st := [mkM 1 [(mkS 1 0 10 [], [mkT 7 1 100])] [(mkT 7 1 100, 1)]] in
+  forall fuel acc, infer_loop fuel false 0 1 (mkW 1 [] [(1, 0)]) st [(1, [mkS 1 0 10 []])] acc = Err 99.
+Proof. exact zero_batch_never_terminates. Qed.
+Print Assumptions C15_zero_batch_diverges.
+
+(* ---- monitors applied to the implementation's own observations *)
+Theorem C15_monitor_batch : forall wd now w b, mon_batch wd now w b = true <-> obatch_ok wd now w b.
+Proof. exact mon_batch_iff. Qed.
+Print Assumptions C15_monitor_batch.
+Theorem C15_monitor_covers_theorem : forall wd b, world_wf wd -> batch_ok wd b -> mon_batch wd (b_now b) (b_worker b) (obatch_of b) = true.
+Proof. exact batch_ok_monitored. Qed.
+Print Assumptions C15_monitor_covers_theorem.
+Theorem C15_monitor_once : forall os, mon_once os = true <-> NoDup (flat_map oi_placed os).
+Proof. exact mon_once_iff. Qed.
+Print Assumptions C15_monitor_once.
+Theorem C15_monitor_cancel : forall wd now offered c, mon_cancel wd now offered c = true <-> c = map t_id (filter (hopeless wd now) offered).
+Proof. exact mon_cancel_iff. Qed.
+Print Assumptions C15_monitor_cancel.
+(* non-vacuity: the worked run of Proofs/ClockworkP8.v satisfies every hypothesis above and places 1,2,6,4 *)
+Theorem C15_example : world_wf ex_wd /\ bs_pos ex_wd /\ env_ok ex_wd false ex_invs (cw_start ex_wd [1]) [] /\
+  id_functional (flat_map i_offered ex_invs) /\ map t_id (run_placed (cw_run ex_wd false ex_invs (cw_start ex_wd [1]))) = [1; 2; 6; 4].
+Proof. exact (conj ex_world_wf (conj ex_bs_pos (conj ex_env_ok (conj ex_id_functional ex_placed)))). Qed.
+Print Assumptions C15_example.
